@@ -81,6 +81,16 @@ CHECKS = {
                 'and keeps every result, and no predicate loop lets a later element overwrite an untested verdict. The arithmetic of '
                 'the predicates themselves (isScalable, sizes) is not decided.',
     },
+    'C04': {
+        'technique': 'static analysis: role table of removal sites filled from interface overriders, who-may-call and call-graph '
+                     'reachability (closed world), dominance of the recursive child loop over the unlink, loop-shape rule for '
+                     'removeAllLinks',
+        'text': 'Decides structural necessary conditions of C04 in both directions: the 6 entity-deletion implementations remove all '
+                'links of the victim (never a single unlink) with children deleted first for sections/sources; the 20 holder-side '
+                'unlink sites cannot reach removeAllLinks; only deletion roles call removeAllLinks; removeAllLinks loops until the '
+                'object has no path; handle validity = link count > 0; positions/extents/feature-data getters re-check block '
+                'membership. Bit-identity of all other entities and HDF5 link bookkeeping are not decided.',
+    },
 }
 
 _NYI = 'check not built yet in this session (planned in DESIGN.md); not claimed until its rule runs and is validated'
